@@ -8,11 +8,12 @@ ENVS = [
          vars={'big': True, 'lim': 40}, rows={'orders': ORDERS, 'nolines': []}),
     dict(txn={'description': 'alfa', 'amount': -1, 'date': datetime.date(2024, 2, 29),
               'field': {'kind': 'wire'}, 'source': 'card', 'location': ''},
-         vars={'big': False, 'lim': 0}, rows={'orders': ORDERS[:1], 'nolines': []}),
+         # (variables may be NAMED like primitives: a user variable wins over the primitive of the same name)
+         vars={'big': False, 'lim': 0, 'day': 77, 'source': 'VarSrc'}, rows={'orders': ORDERS[:1], 'nolines': []}),
     dict(txn={'description': '', 'amount': 0, 'date': None, 'field': None, 'source': '', 'location': ''},
          vars={}, rows={'orders': [], 'nolines': []}),
     dict(txn={'description': 'ZULU 99 store', 'amount': 100, 'date': datetime.date(2025, 1, 1),
               'field': {'kind': '', 'memo': 'x'}, 'source': 'Bank', 'location': 'OR'},
-         vars={'big': True, 'lim': 100}, rows={'orders': ORDERS, 'nolines': []}),
+         vars={'big': True, 'lim': 100, 'weekday': 9, 'month': 13}, rows={'orders': ORDERS, 'nolines': []}),
 ]
 
